@@ -147,6 +147,7 @@ def build_docx(seed: int, feature: str | None = None, twin: bool = False):
     rng = random.Random(f"docx:{seed}")
     tk = Tokens()
     exp = Expect("docx")
+    exp.literals = []   # every non-token visible string this writer emits: the rest of the output must hold no letter or digit (C02 'no text that is not in the source')
     exp.unit_mode = "one-or-sections"
     exp.tables_claimed = True
     exp.images_claimed = True
@@ -437,6 +438,7 @@ def build_pptx(seed: int, feature: str | None = None, twin: bool = False):
     rng = random.Random(f"pptx:{seed}")
     tk = Tokens()
     exp = Expect("pptx")
+    exp.literals = ["zulu", "mike", "alfa"]   # every non-token visible string this writer emits: the rest of the output must hold no letter or digit (C02 'no text that is not in the source')
     exp.unit_mode = "exact"
     exp.join_equality = True
     exp.tables_claimed = True
